@@ -88,6 +88,8 @@ pub fn emit(e: &mut Emitter, seed: u64, thorough: bool) {
         let prog = gen_prog(&mut r, nops, features | 2);
         let mut config = gen_config(&mut r, true);
         if config.zero_knowledge && made % 2 == 0 { config.zero_knowledge = false; }
+        // one circuit always runs without grinding: the PoW witness must still be bound to the proof
+        if made == 0 { config.fri_config.proof_of_work_bits = 0; }
         e.stage(&format!("building+proving a generated circuit ({} ops)", prog.ops.len()));
         let Some((data, proof)) = build_and_prove(&prog, &config) else { e.count("inadmissible-config-or-build-panic"); continue; };
         made += 1;
@@ -114,6 +116,46 @@ pub fn emit(e: &mut Emitter, seed: u64, thorough: bool) {
                 // the compressed form's redundant index list does not exist in the plain form
                 if vi == "ACCEPT" { e.oracle_failures.push(format!("tampered proof ACCEPTED: element {} changed {}→{}", path.join("/"), old, newv)); }
                 e.case(&format!("edit {cls}"), request("c03 verify", &data, &p2), || vi.clone());
+            }
+        }
+        // targeted: query rounds that revisit an index / a coset already visited by an earlier round
+        // (the later visit must be checked as strictly as the first)
+        {
+            let pih = proof.get_public_inputs_hash();
+            let ch = proof.get_challenges(pih, &data.verifier_only.circuit_digest, &data.common).unwrap();
+            let idx = &ch.fri_challenges.fri_query_indices;
+            let arities = &data.common.fri_params.reduction_arity_bits;
+            for q in 1..idx.len() {
+                // initial trees: same index as an earlier round
+                if idx[..q].contains(&idx[q]) {
+                    let mut p2 = proof.clone();
+                    let ep = &mut p2.proof.opening_proof.query_round_proofs[q].initial_trees_proof.evals_proofs;
+                    let o = r.below(ep.len() as u64) as usize;
+                    if r.coin() || ep[o].1.siblings.is_empty() { let k = r.below(ep[o].0.len() as u64) as usize; ep[o].0[k] += F::ONE; }
+                    else { let k = r.below(ep[o].1.siblings.len() as u64) as usize; ep[o].1.siblings[k].elements[0] += F::ONE; }
+                    let vi = verdict(&data, &p2);
+                    if vi == "ACCEPT" { e.oracle_failures.push(format!("tampered initial opening of a query round that repeats index {} ACCEPTED", idx[q])); }
+                    e.case("edit in a round repeating an earlier index", request("c03 verify", &data, &p2), || vi.clone());
+                }
+                // steps: coset index at layer j already visited by an earlier round
+                let mut shift = 0;
+                for (j, a) in arities.iter().enumerate() {
+                    shift += a;
+                    if idx[..q].iter().any(|&i| i >> shift == idx[q] >> shift) {
+                        let mut p2 = proof.clone();
+                        let st = &mut p2.proof.opening_proof.query_round_proofs[q].steps[j];
+                        if r.coin() && !st.merkle_proof.siblings.is_empty() {
+                            let k = r.below(st.merkle_proof.siblings.len() as u64) as usize;
+                            st.merkle_proof.siblings[k].elements[r.below(4) as usize] += F::ONE;
+                        } else {
+                            let k = r.below(st.evals.len() as u64) as usize;
+                            st.evals[k] += FE::ONE;
+                        }
+                        let vi = verdict(&data, &p2);
+                        if vi == "ACCEPT" { e.oracle_failures.push(format!("tampered step {j} of a query round revisiting a coset ACCEPTED")); }
+                        e.case("edit in a round revisiting a coset", request("c03 verify", &data, &p2), || vi.clone());
+                    }
+                }
             }
         }
         // list surgery on every array class
